@@ -382,8 +382,13 @@ class Shape:
     real objects from a concretised counter-model (for replay).  ``opts`` are option values
     in force (lsb0, bytealigned, mxfp_overflow)."""
 
-    def __init__(self, name, build, real=None, opts=None, loop_bound=None, timeout_ms=None, note='', props=None):
+    def __init__(self, name, build, real=None, opts=None, loop_bound=None, timeout_ms=None, note='', props=None, stable=True,
+                 gen=None):
+        self.gen = gen            # optional: rng -> concrete input dict, for the bounded stand-in (domains the default
+                                  # small-input generator cannot reach)
         self.props = set(props) if props is not None else None
+        self.stable = stable      # False: solver verdicts on this shape are load-sensitive; it is always also served by the
+                                  # bounded stand-in and is not counted in the proof tally
         self.name = name
         self.build = build
         self.real = real
